@@ -813,9 +813,11 @@ func (ex *Exec) track(kind string, node *NodeH, desc string) func() {
 	}
 }
 
-// hungLimit: every call the harness issues is bounded by the code's own deadlines and retry budgets (ten attempts of a
-// join or leave, each a handful of RPCs with a 10 s deadline; six attempts of a KV operation; a lookup of a few hops) -
-// a call that is still outstanding after 25 simulated minutes will never return.
+// hungLimit: a lookup is a few hops with a 10 s deadline each - one that is still outstanding after 25 simulated
+// minutes will never return. Other calls can legitimately take that long (Leave and Join make ten attempts with an
+// exponentially growing pause: against a node that keeps refusing, the last pauses alone are a quarter of an hour),
+// so for them the limit only ends the run and starts the probe: every member is asked for a fresh lookup, and only
+// members that do not answer it are reported.
 const hungLimit = 25 * time.Minute
 
 func (ex *Exec) hungCalls() []*pendingCall {
